@@ -6,6 +6,7 @@ import numpy as np
 from .. import common as C
 from .. import impl
 from .. import drex, solver
+from .. import robust
 
 PARTIAL = [
     "that LSODA returns a constant solution for an identically zero right-hand side is an integrator fact, validated on the "
@@ -36,6 +37,7 @@ def _err_kind(out):
 
 def run(ctx, res):
     rng = np.random.default_rng(ctx["seed"] + 707)
+    robust.run(res, np.random.default_rng(ctx["seed"] + 79), ctx, "C07", n_sc=(3 if not ctx["thorough"] else 12))
     core = impl._core
     res.rule = ("(a) dispatch table: regime ordinals {-3,-1,0..9,255,10^6} x phase {0,1,2,-1} x fabric {0..6,-1}, exception kinds "
                 "compared exactly with the model on both code paths; (b) null updates (regimes 0/7, L = 0, M = 0) on generated scenarios; "
@@ -99,7 +101,16 @@ def run(ctx, res):
             sc["field"] = solver.make_field(rng, "zero")
         else:
             sc["Mob"] = 0.0
-        m, Fs, rec = solver.run_scenario(sc)
+        m0 = solver.build_mineral(sc)
+        if k % 2 == 1:
+            # same numbers handed over as a transposed view / Fortran-ordered array
+            A_c = m0.orientations[0]
+            view = np.ascontiguousarray(A_c.transpose(0, 2, 1)).transpose(0, 2, 1) if k % 4 == 1 else np.asfortranarray(A_c)
+            assert np.array_equal(view, A_c)
+            m0 = impl._minerals.Mineral(phase=m0.phase, fabric=m0.fabric, regime=m0.regime, n_grains=sc["n"],
+                                        fractions_init=m0.fractions[0].copy(), orientations_init=view)
+            res.count("null:non_C_ordered_input")
+        m, Fs, rec = solver.run_scenario(sc, mineral=m0)
         res.evaluations += 1
         res.count("null:" + mode)
         res.nontrivial(("null", mode, k, sc["tex_seed"]))
